@@ -138,7 +138,7 @@ def schemata():
     # head formulas whose instances have argument lists that print almost alike, against plain future heads (a reference that does not go through the theory)
     for part in ('always', 'initial', 'dynamic'):
         S.append((part, 'rr(1,12). rr(11,2).\n&tel { > p(X,Y) } :- rr(X,Y), a.', "rr(1,12). rr(11,2).\np'(1,12) :- rr(1,12), a.\np'(11,2) :- rr(11,2), a."))
-        S.append((part, 'rr(1,12). rr(11,2).\n&tel { p(X,Y) | > p(Y,X) } :- rr(X,Y), not a.', "rr(1,12). rr(11,2).\np(1,12) ; p'(12,1) :- rr(1,12), not a.\np(11,2) ; p'(2,11) :- rr(11,2), not a." if False else
+        S.append((part, 'rr(1,12). rr(11,2).\n&tel { p(X,Y) | > p(Y,X) } :- rr(X,Y), not a.',
                   'rr(1,12). rr(11,2).\n&tel { p(1,12) | > p(12,1) } :- rr(1,12), not a.\n&tel { p(11,2) | > p(2,11) } :- rr(11,2), not a.'))
     # &del elements with conditions that are not facts, alone and next to an unconditioned element
     for part in ('always', 'initial', 'dynamic'):
